@@ -98,6 +98,8 @@ def specs(tier):
         out.append(dict(module="checks.c02", scenario="PointInShape", params=dict(shape=s, flag=True, via="in")))
     for s in ["penta", "cw:ell"] + (["you", "quad"] if tier != "quick" else []):
         out.append(dict(module="checks.c02", scenario="PointInShape", params=dict(shape=s, flag=True, via="jordan_in")))
+    for s in ["circle8", "lens"] + (["circle16", "dcup"] if tier != "quick" else []):
+        out.append(dict(module="checks.c02", scenario="PointInCurved", params=dict(shape=s), time_budget=45 if tier == "quick" else 1200))
     return out
 
 
@@ -113,3 +115,180 @@ def main(tier, seed):
         assumptions=["polygonal catalogue shapes (<= 8 edges, all kinds, both orientations); curved boundaries and float inputs outside",
                      "points at distance < 1.5e-6 from the boundary but not on it: no assertion (documented point-on-curve tolerance 1e-6)"],
     )
+
+
+# ----------------------------------------------------------------------------------------------
+# curved boundaries
+
+
+def _circle(n, r=2):
+    from shapepy import Primitive
+
+    return Primitive.circle(F(r), (0, 0), n)
+
+
+CURVED_SHAPES = {
+    "circle4": lambda: _circle(4),
+    "circle8": lambda: _circle(8),
+    "circle16": lambda: _circle(16, 3),
+    "lens": lambda: __import__("shapepy").SimpleShape(__import__("shapepy").JordanCurve.from_ctrlpoints([[(0, 0), (2, -2), (4, 0)], [(4, 0), (2, 1), (0, 0)]])),
+    "dcup": lambda: __import__("shapepy").SimpleShape(__import__("shapepy").JordanCurve.from_ctrlpoints([[(0, 0), (4, 0)], [(4, 0), (5, 3), (-1, 3), (0, 0)]])),
+}
+
+
+def curve_truth(segs, p):
+    """exact membership of a concrete point in the region bounded by a closed chain of Bezier segments (concrete
+    control points): parity of the crossings of the ray y = p.y, x > p.x, each counted by z3 over the reals.
+    returns (inside, on_boundary_within_tolerance)"""
+    from oracles import bezier as BZ
+
+    px, py = F(p[0]), F(p[1])
+    total = 0
+    t1, t2, t3 = z3.Real("t1"), z3.Real("t2"), z3.Real("t3")
+
+    def q(v):
+        return z3.RatVal(F(v).numerator, F(v).denominator)
+
+    for s in segs:
+        X = [q(c[0]) for c in s]
+        Y = [q(c[1]) for c in s]
+
+        def hit(t):
+            return z3.And(t >= 0, t < 1, BZ.bernstein(Y, t) == q(py), BZ.bernstein(X, t) > q(px))
+
+        k = 0
+        ts = [t1, t2, t3]
+        for cnt in (3, 2, 1):
+            sol = z3.Solver()
+            sol.set("timeout", 20000)
+            sol.add([hit(t) for t in ts[:cnt]])
+            for a, b in zip(ts[:cnt], ts[1:cnt]):
+                sol.add(a < b)
+            if sol.check() == z3.sat:
+                k = cnt
+                break
+        total += k
+    return total % 2 == 1
+
+
+def curve_dist_small(segs, p, tol):
+    """is p within tol of the curve? (z3, exists t)"""
+    from oracles import bezier as BZ
+
+    px, py = F(p[0]), F(p[1])
+    t = z3.Real("t")
+
+    def q(v):
+        return z3.RatVal(F(v).numerator, F(v).denominator)
+
+    for s in segs:
+        X = [q(c[0]) for c in s]
+        Y = [q(c[1]) for c in s]
+        sol = z3.Solver()
+        sol.set("timeout", 20000)
+        dx, dy = BZ.bernstein(X, t) - q(px), BZ.bernstein(Y, t) - q(py)
+        sol.add(t >= 0, t <= 1, dx * dx + dy * dy <= q(F(tol) ** 2))
+        if sol.check() != z3.unsat:
+            return True
+    return False
+
+
+class PointInCurved:
+    """symbolic query point against a concrete shape with curved boundary pieces.  Tractable cells are those in which
+    the point is outside the control box of every curved piece (the library answers from the chords it samples; by the
+    convex-hull property chords and arcs agree there); cells inside a control box run the Newton projection and are
+    spot-checked at their witness against the exact curved region (z3 over the reals at the concrete point)."""
+
+    nfree = 0
+    max_degree = 2
+    spot_names = ["membership differs from the curved region truth"]
+
+    def __init__(self, shape, flag=True):
+        self.shape, self.flag = shape, flag
+        self.names = ["px", "py"]
+
+    def domain(self, xs):
+        return [xs[0] >= -20, xs[0] <= 20, xs[1] >= -20, xs[1] <= 20]
+
+    def build(self):
+        if getattr(self, "_S", None) is None:
+            self._S = CURVED_SHAPES[self.shape]()
+            J = self._S.jordans[0]
+            self._segs = [[(F(p[0]), F(p[1])) if not isinstance(p[0], float) else (F(p[0]), F(p[1])) for p in s.ctrlpoints] for s in J.segments]
+            # the polygon of the chords the library samples (closed_linspace(npts) on every segment)
+            from oracles import bezier as BZ
+
+            ch = []
+            for s in self._segs:
+                n = len(s)
+                for i in range(n - 1):
+                    t = F(i, n - 1)
+                    ch.append((BZ.bernstein([c[0] for c in s], t), BZ.bernstein([c[1] for c in s], t)))
+            self._chords = ch
+        return self._S
+
+    def run(self, xs):
+        S = self.build()
+        return {"ans": bool(S.contains_point((xs[0], xs[1]), self.flag))}
+
+    def oblige(self, tr, out):
+        from symx.core import Sym
+
+        self.build()
+        px, py = Sym.var(0, 0), Sym.var(1, 0)
+        ccw = R.x_signed_area2(self._chords) > 0
+        want = R.z_in(("poly", self._chords, ccw), px, py)
+        # outside the (grown) control box of every curved piece and off the straight ones
+        clear = []
+        for s in self._segs:
+            if len(s) == 2:
+                clear.append(R.z_seg_off(px, py, s[0], s[1], R.BAND))
+            else:
+                lox, hix = min(c[0] for c in s), max(c[0] for c in s)
+                loy, hiy = min(c[1] for c in s), max(c[1] for c in s)
+                d = F(2, 10**6)
+                clear.append(R.zor(px <= lox - d, px >= hix + d, py <= loy - d, py >= hiy + d))
+        return [("membership differs from the sampled-chord region outside the control boxes", z3.And(z3.And(clear), want != z3.BoolVal(out["ans"])), {})]
+
+    def on_raise(self, exc, func, line):
+        return "point query raised " + exc
+
+    def confirm(self, name, xs, outcome, exc):
+        if name.startswith("point query raised"):
+            return exc is not None, str(exc)
+        if outcome is None:
+            return False, str(exc)
+        self.build()
+        p = (xs[0], xs[1])
+        if curve_dist_small(self._segs, p, F(2, 10**6)):
+            return False, "within the tolerance of the curve: no assertion"
+        truth = curve_truth(self._segs, p)
+        return outcome["ans"] != truth, f"{self.shape} p=({xs[0]}, {xs[1]}): library says {outcome['ans']}, the region bounded by the curve says {truth}"
+
+    def signature(self, name, xs, outcome, exc):
+        self.build()
+        p = (xs[0], xs[1])
+        ccw = R.x_signed_area2(self._chords) > 0
+        chord = R.x_in(("poly", self._chords, ccw), p)
+        truth = curve_truth(self._segs, p)
+        return {"name": "curved membership", "point_between_sampled_chord_and_arc": bool(chord != truth), "library_agrees_with_chord_polygon": bool(outcome is not None and outcome["ans"] == chord)}
+
+    def extra_envs(self):
+        """probe points between a sampled chord and its arc (the recorded finding KF-C02-1 keeps a witness there) and
+        clearly inside / outside"""
+        self.build()
+        from oracles import bezier as BZ
+
+        out = []
+        for s in self._segs[:3]:
+            if len(s) == 2:
+                continue
+            n = len(s)
+            t = F(1, 2 * (n - 1))  # middle of the first sampled chord
+            c = (BZ.bernstein([q[0] for q in s], t), BZ.bernstein([q[1] for q in s], t))
+            a = s[0]
+            b = (BZ.bernstein([q[0] for q in s], F(1, n - 1)), BZ.bernstein([q[1] for q in s], F(1, n - 1)))
+            m = ((a[0] + b[0]) / 2, (a[1] + b[1]) / 2)
+            for lam in (F(1, 2), F(9, 10)):
+                out.append([(m[0] + lam * (c[0] - m[0])).limit_denominator(10**6), (m[1] + lam * (c[1] - m[1])).limit_denominator(10**6)])
+        return out
